@@ -555,6 +555,17 @@ func readOutputs(paths []string) string {
 	return "out " + strings.Join(files, ";")
 }
 
+// sweepStale removes case directories a killed harness process left on the tmpfs.
+func sweepStale() {
+	dirs, _ := filepath.Glob("/dev/shm/verif-c04-*")
+	for _, d := range dirs {
+		if st, err := os.Stat(d); err == nil && time.Since(st.ModTime()) > 45*time.Minute {
+			os.RemoveAll(d)
+		}
+	}
+}
+
 func main() {
+	sweepStale()
 	h.Main(h.Harness{Gen: gen, NewCase: newCase, OpTimeout: 60 * time.Second})
 }
